@@ -149,6 +149,8 @@ def rules(ctx):
         miss = [n for ch, n in need.items() if ch not in s.channels]
         ctx.decide(o, not miss, "all five collections are written", "update_tours never writes: %s" % ", ".join(miss))
     formation_edits(ctx)
+    from .C10 import fresh_ids
+    fresh_ids(ctx, sites)
 
 
 def controls(ctx):
